@@ -351,7 +351,7 @@ func main() {
 	ck := &checker{c: c, dec: dec}
 	chunks := buildChunks(c)
 	c.Note("chunks_total", len(chunks))
-	c.Note("exhaustive_parts", "unsigned8, signed8, unsigned16, signed16 (all values); boolean (both values; all 256 decoded bytes); string/octetArray lengths 0..300 and 65500..65535 (every length)")
+	c.Note("exhaustive_parts", "unsigned8, signed8, unsigned16, signed16 (all values); boolean (both values; all 256 bytes presented, 1 and 2 judged); string/octetArray lengths 0..300 and 65500..65535 (every length)")
 	sie := lib.IE(sentinel)
 	from, to := c.Range(len(chunks))
 	for k := from; k < to; k++ {
@@ -376,11 +376,19 @@ func main() {
 		})
 		vals := ck.values(r, ch)
 		if ch.kind == "boolbytes" {
-			// every decoded byte value: true only for 1
+			// 1 is true and 2 is false (RFC 7011 6.1.5). The other 254 byte values are not values of the
+			// type: what the decoder makes of them (an error, false) is outside the statement; they are
+			// presented all the same (a crash of the process would be reported by the front-end).
 			for b := 0; b < 256; b++ {
 				c.Eval(1)
 				c.Nontrivial(hx.H64("boolbyte", b))
 				d, err := entities.DecodeAndCreateInfoElementWithValue(ie, []byte{byte(b)})
+				if b != 1 && b != 2 {
+					if err != nil {
+						c.Add("undefined_boolean_bytes_refused", 1)
+					}
+					continue
+				}
 				if err != nil {
 					c.Violation(k, "decode-error:boolean", err.Error(), b)
 					continue
